@@ -55,7 +55,7 @@ deriving DecidableEq, Repr, Inhabited
 structure Proc where
   state : PState := .running
   load : Int := 0              -- proc->load
-  statLoad : Int := 0          -- "gw.backend.<host>.<proc>.load"
+  statLoad : Int := 0          -- ghost: value last stored through proc->stats_load
   disabledUntil : Int := 0
   isLocal : Bool := false
   pid : Nat := 0
@@ -65,7 +65,8 @@ structure Host where
   nprocs : Nat := 0
   active : Int := 0            -- host->active_procs
   load : Int := 0              -- host->load
-  statLoad : Int := 0          -- "gw.backend.<host>.load"
+  statLoad : Int := 0          -- ghost: value last stored through host->stats_load
+  label : Nat := 0             -- host->id, the config label the statistics keys are built from
   gwHash : UInt32 := 0
   disableTime : Int := 0
   ctimeout : Int := 0
@@ -86,6 +87,7 @@ deriving Inhabited
 
 structure Aux where
   reconnects : Nat := 0
+  dispatched : Nat := 0        -- ghost: connect() calls made for this request
   pid : Nat := 0
   evIn : Bool := false         -- fdn->events & FDEVENT_IN …
   evOut : Bool := false
@@ -144,6 +146,8 @@ structure World where
   noteSent : Bool := false
   now : Int := 1000             -- log_monotonic_secs
   globalActive : Int := 0       -- "gw.active-requests"
+  hstat : Nat → Int := fun _ => 0        -- "gw.backend.<label>.load", keyed by config label
+  pstat : Nat → Nat → Int := fun _ _ => 0  -- "gw.backend.<label>.<proc>.load"
   curFds : Int := 0             -- srv->cur_fds
   pendClose : Nat := 0          -- fds on ev->pendclose
   opened : Nat := 0             -- ghost: sockets created
@@ -312,21 +316,32 @@ def hostGet (w : World) (s : Nat) : Option Nat × World :=
 
 /-! ### load accounting primitives -/
 
+/-- `*host->stats_load = (host->load = v)`: the statistics entry is found by the host's
+    config label (gw_status_get_counter), so hosts with equal labels share one entry -/
+def setHostLoad (w : World) (h : Nat) (v : Int) : World :=
+  let l := (w.host h).label
+  { (w.updHost h fun H => { H with load := v, statLoad := v }) with
+    hstat := fun k => if k = l then v else w.hstat k }
+
+/-- `*proc->stats_load = (proc->load = v)`, keyed by (label, proc) -/
+def setProcLoad (w : World) (h p : Nat) (v : Int) : World :=
+  let l := (w.host h).label
+  { (w.updProc h p fun P => { P with load := v, statLoad := v }) with
+    pstat := fun k q => if k = l ∧ q = p then v else w.pstat k q }
+
 /-- hctx->host = host; gw_host_assign(host)   (an hctx exists wherever the C does this) -/
 def hostAssign (w : World) (s h : Nat) : World :=
   match w.slot s with
   | none => w
   | some _ =>
-    (w.updLink s fun l => { l with host := some h }).updHost h fun H =>
-      { H with load := H.load + 1, statLoad := H.load + 1 }
+    setHostLoad (w.updLink s fun l => { l with host := some h }) h ((w.host h).load + 1)
 
 /-- hctx->proc = proc; gw_proc_load_inc(host, proc) -/
 def procAcquire (w : World) (s h p : Nat) : World :=
   match w.slot s with
   | none => w
   | some _ =>
-    let w1 := (w.updLink s fun l => { l with proc := some p }).updProc h p fun P =>
-      { P with load := P.load + 1, statLoad := P.load + 1 }
+    let w1 := setProcLoad (w.updLink s fun l => { l with proc := some p }) h p ((w.proc h p).load + 1)
     { w1 with globalActive := w1.globalActive + 1 }
 
 /-- fdevent_socket_nb_cloexec() ok: ++cur_fds, hctx->fd, fdevent_register -/
@@ -358,11 +373,11 @@ def backendClose (w : World) (s : Nat) : World :=
         match c.link.proc with
         | some p =>
           -- gw_proc_release → gw_proc_load_dec
-          let w' := (w1.updProc h p fun P => { P with load := P.load - 1, statLoad := P.load - 1 })
+          let w' := setProcLoad w1 h p ((w1.proc h p).load - 1)
           ({ w' with globalActive := w'.globalActive - 1 }).updLink s fun l => { l with proc := none }
         | none => w1
       -- gw_host_reset
-      (w2.updHost h fun H => { H with load := H.load - 1, statLoad := H.load - 1 }).updLink s
+      (setHostLoad w2 h ((w2.host h).load - 1)).updLink s
         fun l => { l with host := none }
 
 /-- http_response_backend_done() with r->state == CON_STATE_HANDLE_REQUEST -/
@@ -489,9 +504,9 @@ def wrRegister (w : World) (s h p : Nat) : World :=
 /-- gw_establish_connection() and what GW_STATE_INIT does with its three answers -/
 def wrConnect (w : World) (s h p : Nat) : Rc × World :=
   let c := popConn w
-  let w3 := c.2.emit (.dispatch s h p)
+  let w3 := (c.2.emit (.dispatch s h p)).updAux s fun a => { a with dispatched := a.dispatched + 1 }
   match connClass c.1 (w3.host h).unix with
-  | 0 => wrConnected (w3.updAux s fun a => { a with reconnects := 0 }) s
+  | 0 => wrConnected w3 s
   | 1 => (.waitForEvent,
           (w3.updAux s fun a => { a with evOut := true }).updLink s
             fun l => { l with state := .connectDelayed })
@@ -613,8 +628,8 @@ def runCon : Nat → World → Nat → World
         | .comeback => runCon n r.2 s
         | .error => finish (r.2.emit (.err s)) s true
 
-/-- enough for every retry the script can feed (c11_retry_bounded) -/
-def conFuel (w : World) : Nat := 7 * (w.script.size + 1)
+/-- more rounds than the retry budget allows (1 + 5 retries; c11_retry_bounded) -/
+def conFuel (_w : World) : Nat := 7
 
 def runJobs (w : World) : World :=
   let js := w.jobs
@@ -769,8 +784,13 @@ def specProc (i j : Nat) (sp : Option HostSpec) : Proc :=
 
 def initWorld (balance : Nat) (wkr : Bool) (nslots : Nat) (specs : List HostSpec) : World :=
   { balance := balance, wkr := wkr, nslots := nslots, nhosts := specs.length,
-    host := fun i => specHost i specs[i]?,
+    host := fun i => { specHost i specs[i]? with label := i + 1 },   -- "h0", "h1", …: distinct labels
     proc := fun i j => specProc i j specs[i]? }
+
+/-- the same pool written as an anonymous list `(( … ), ( … ))`: every host->id is empty, so all
+    hosts (and their procs of equal index) share one statistics entry -/
+def anonymize (w : World) : World :=
+  { w with host := fun i => { w.host i with label := 0 } }
 
 /-! ### specification vocabulary: what "equals the number of requests in flight" means -/
 
